@@ -150,7 +150,8 @@ theorem performAction_dispatch (p : Parser) (perf : Perf) (b : Nat) (h : p.isFul
   simp [performAction, h]
 
 theorem csiDispatch_ok (q : Parser) (b : Nat) (h1 : q.ignoring = false) (h2 : q.inter = 0)
-    (h3 : q.paramsLen ≠ 0) : ∃ kind, csiDispatch q {} b = ⟨some kind, 0⟩ := by
+    (h3 : q.paramsLen ≠ 0) :
+    csiDispatch q {} b = ⟨some (if b = 109 then Kind.sgr q.paramsIter else Kind.csi), 0⟩ := by
   unfold csiDispatch
   simp [h1, h2, h3]
   by_cases c : b = 109 <;> simp [c]
@@ -158,7 +159,8 @@ theorem csiDispatch_ok (q : Parser) (b : Nat) (h1 : q.ignoring = false) (h2 : q.
 /-- The final byte of a well-formed CSI sequence dispatches an element and returns to Ground. -/
 theorem adv_csi_final (p : Parser) (k : Nat) (h : CsiOk p k) (hk : k < 32) (b : Nat)
     (hb1 : 0x40 ≤ b) (hb2 : b ≤ 0x7e) :
-    (∃ kind, (advanceN p b).2 = ⟨some kind, 0⟩) ∧ Ground (advanceN p b).1 := by
+    (∃ kind, (advanceN p b).2 = ⟨some kind, 0⟩ ∧ (b = 109 → ∃ ps, kind = Kind.sgr ps)) ∧
+      Ground (advanceN p b).1 := by
   have hb : b < 256 := by omega
   obtain ⟨t1, t4⟩ := sc_csi_final b hb hb1 hb2
   have hfull : p.isFull = false := by
@@ -166,7 +168,8 @@ theorem adv_csi_final (p : Parser) (k : Nat) (h : CsiOk p k) (hk : k < 32) (b : 
   have hlen : (p.push p.param).paramsLen ≠ 0 := by rw [paramsLen_push]; omega
   have hign : (p.push p.param).ignoring = false := by simp [Parser.push, h.ign]
   have hint : (p.push p.param).inter = 0 := by simp [Parser.push, h.inter]
-  obtain ⟨kind, hk'⟩ := csiDispatch_ok (p.push p.param) b hign hint hlen
+  have hk' := csiDispatch_ok (p.push p.param) b hign hint hlen
+  generalize hkind : (if b = 109 then Kind.sgr (p.push p.param).paramsIter else Kind.csi) = kind at hk'
   have key : advanceN p b = ({ p.push p.param with state := 12 }, ⟨some kind, 0⟩) := by
     rcases h.st with hs | hs
     · simp [advanceN, hs, t1, sUtf8, performStateChange, sAnywhere, sDcsPassthrough,
@@ -174,7 +177,8 @@ theorem adv_csi_final (p : Parser) (k : Nat) (h : CsiOk p k) (hk : k < 32) (b : 
     · simp [advanceN, hs, t4, sUtf8, performStateChange, sAnywhere, sDcsPassthrough,
         sOscString, sCsiEntry, sDcsEntry, sEscape, performAction_dispatch _ _ _ hfull, hk']
   rw [key]
-  exact ⟨⟨kind, rfl⟩, by simp [Ground, Parser.push, h.u1, h.u2]⟩
+  refine ⟨⟨kind, rfl, ?_⟩, by simp [Ground, Parser.push, h.u1, h.u2]⟩
+  intro hb; subst hkind; exact ⟨(p.push p.param).paramsIter, by simp [hb]⟩
 
 /-! ### OSC strings -/
 
